@@ -12,6 +12,22 @@ CHECKS = {
    design_ref="DESIGN.md §4 C20",
    note="Trusted: SQVM instruction semantics and integer builtin models (validated against the real executor on every run), z3. num-bigint's own arithmetic is assumed exact. Inputs assumed canonical as the module documents.",
  ),
+ "C07": dict(
+   engine="E1 SQVM abstract mode (z3)",
+   technique="per-function SMT encoding of all control-flow paths over (pc, stack height, locals) abstracted from the real compiler's bytecode; counterexample paths re-derived by a Rust walk of the real instructions",
+   category="model_checking",
+   text="For each function emitted by the real compiler for the corpus (std, examples, test-suite sources, spec examples), as compiled, after the real tree_shake and after the real Environment merge, ONE solver query decides all paths: jumps in range, no underflow below the frame, single height per join, exit with exactly one result, loads defined, Reset within locals; table indices in range. The path quantifier is decided exhaustively (CFG proven acyclic); the program quantifier is instantiated by the corpus, which is what the property names.",
+   design_ref="DESIGN.md §4 C07",
+   note="Trusted: the instruction-effect table (validated each run against single-stepped real executions), z3. Programs outside the corpus are not covered; generated programs are not used.",
+ ),
+ "C16": dict(
+   engine="E1 SQVM abstract mode (z3)",
+   technique="per-function SMT encoding of all paths reaching each TailCall site; height above frame entry must equal the call's operand count",
+   category="model_checking",
+   text="Constant space of tail calls is a per-path static fact about the emitted code plus the VM's TailCall effect: on every path reaching TailCall(true) the height is exactly 1, TailCall(false) exactly 2, else every iteration leaves cells behind. Decided for all paths of every corpus function containing a tail call (including mutual recursion, nested blocks); the iteration-count quantifier disappears because the condition is iteration-independent.",
+   design_ref="DESIGN.md §4 C16",
+   note="Trusted: effect table + restated handle_tail_call semantics (validated against the real executor). Heap reclamation of dropped binaries is not decided (C06).",
+ ),
 }
 
 NOT_APPLICABLE = {
